@@ -546,3 +546,133 @@ theorem escape_injective_usSimple (t : List (List Char × List Char))
       simpa [hla, hlb, snake_usSimple x hx, snake_usSimple y hy] using h
 
 end Witverif.Text.Ident
+
+namespace Witverif.Text.Ident
+open Witverif.Text.Heck Witverif.Text.PkgSpec Witverif.Text.PkgPath
+
+/-! ### the escape function with the table looked up on the snake-cased name (`escapeIdentS`) -/
+
+theorem lowSep_not_upper {c : Char} (h : c = '-' ∨ lod c = true ∨ uod c = true) :
+    isAsciiUpper (lowSep c) = false := by
+  rcases h with h | h | h
+  · subst h; decide
+  · have hne : c ≠ '-' := (lod_ne h).2.2.1
+    have hu := lod_not_upper h
+    have ha := lod_ascii h
+    simp only [isUpper, ha, if_true] at hu
+    simp [lowSep, hne, lod_lowA h, hu]
+  · have hne : c ≠ '-' := by intro e; subst e; revert h; decide
+    simp only [lowSep, hne, if_false, lowA]
+    split
+    · rename_i hu
+      simp only [isAsciiUpper, Bool.and_eq_true, decide_eq_true_eq] at hu
+      have : (Char.ofNat (c.toNat + 32)).toNat = c.toNat + 32 := toNat_ofNat_small _ (by omega)
+      simp only [isAsciiUpper, this, Bool.and_eq_false_iff, decide_eq_false_iff_not]
+      omega
+    · rename_i hu; simpa using hu
+
+theorem snake_valid_not_upper (n : List Char) (h : validName n = true) :
+    ∀ c ∈ snake n, isAsciiUpper c = false := by
+  rw [snake_valid n h]
+  intro c hc
+  obtain ⟨x, hx, rfl⟩ := List.mem_map.mp hc
+  exact lowSep_not_upper ((validName_facts h).2 x hx)
+
+theorem snake_usSimple_not_upper (x : List Char) (h : usSimple x = true) :
+    ∀ c ∈ snake x, isAsciiUpper c = false := by
+  rw [snake_usSimple x h]
+  simp only [usSimple, Bool.and_eq_true, List.all_eq_true, Bool.or_eq_true, beq_iff_eq] at h
+  intro c hc
+  rcases h.2 c hc with h1 | h1
+  · have hu := lod_not_upper h1
+    have ha := lod_ascii h1
+    simpa [isUpper, ha] using hu
+  · subst h1; decide
+
+/-- **No keyword, for any input whose snake case has no upper-case letter** — provided (decidable
+facts about table and keyword list) no table value is a keyword and every keyword without an
+upper-case letter is an arm of the table. -/
+theorem escapeS_not_keyword (t : List (List Char × List Char)) (kws : List (List Char))
+    (hv : ∀ e ∈ t, e.2 ∉ kws)
+    (hcov : ∀ k ∈ kws, (lookupT t k).isSome = true ∨ ∃ c ∈ k, isAsciiUpper c = true)
+    (x : List Char) (hx : ∀ c ∈ snake x, isAsciiUpper c = false) : escapeIdentS t x ∉ kws := by
+  unfold escapeIdentS
+  cases hl : lookupT t (snake x) with
+  | some v => exact hv _ (lookupT_some hl)
+  | none =>
+    intro hk
+    rcases hcov _ hk with h1 | ⟨c, hc, h1⟩
+    · rw [hl] at h1; simp at h1
+    · rw [hx c hc] at h1; simp at h1
+
+theorem valid_snake_last (y : List Char) (hy : validName y = true) :
+    (snake y).getLast? ≠ some '_' := by
+  rw [snake_valid y hy, List.getLast?_map]
+  intro hlast
+  cases hyl : y.getLast? with
+  | none => rw [hyl] at hlast; simp at hlast
+  | some c =>
+    rw [hyl] at hlast
+    simp only [Option.map_some, Option.some.injEq] at hlast
+    have hcy : c ∈ y := List.mem_of_getLast? hyl
+    have hc := (lowSep_eq_us ((validName_facts hy).2 c hcy)).mp hlast
+    subst hc
+    obtain ⟨pre, hpre⟩ : ∃ pre, y = pre ++ ['-'] := List.getLast?_eq_some_iff.mp hyl
+    exact valid_not_end_dash hy pre hpre
+
+theorem usSimple_snake_last (x : List Char) (hx : usSimple x = true) :
+    (snake x).getLast? ≠ some '_' := by
+  rw [snake_usSimple x hx]
+  intro h
+  simp only [usSimple, Bool.and_eq_true] at hx
+  exact absurd (simpleTail_last x true hx.1 '_' h) (by decide)
+
+/-- equal emitted identifiers come from equal snake cases (table values pairwise different, all
+ending in `_`; snake cases not ending in `_`) -/
+theorem escapeS_snake_eq (t : List (List Char × List Char))
+    (hinj : ∀ e1 ∈ t, ∀ e2 ∈ t, e1.2 = e2.2 → e1.1 = e2.1)
+    (hus : ∀ e ∈ t, e.2.getLast? = some '_')
+    (a b : List Char) (ha : (snake a).getLast? ≠ some '_') (hb : (snake b).getLast? ≠ some '_')
+    (h : escapeIdentS t a = escapeIdentS t b) : snake a = snake b := by
+  unfold escapeIdentS at h
+  cases hla : lookupT t (snake a) with
+  | some va =>
+    cases hlb : lookupT t (snake b) with
+    | some vb =>
+      simp only [hla, hlb] at h
+      exact hinj _ (lookupT_some hla) _ (lookupT_some hlb) h
+    | none =>
+      simp only [hla, hlb] at h
+      have := hus _ (lookupT_some hla)
+      simp only at this
+      rw [h] at this
+      exact absurd this hb
+  | none =>
+    cases hlb : lookupT t (snake b) with
+    | some vb =>
+      simp only [hla, hlb] at h
+      have := hus _ (lookupT_some hlb)
+      simp only at this
+      rw [← h] at this
+      exact absurd this ha
+    | none => simpa [hla, hlb] using h
+
+theorem escapeS_injective_mod_case (t : List (List Char × List Char))
+    (hinj : ∀ e1 ∈ t, ∀ e2 ∈ t, e1.2 = e2.2 → e1.1 = e2.1)
+    (hus : ∀ e ∈ t, e.2.getLast? = some '_')
+    (a b : List Char) (ha : validName a = true) (hb : validName b = true)
+    (h : escapeIdentS t a = escapeIdentS t b) : a.map lowA = b.map lowA := by
+  have := escapeS_snake_eq t hinj hus a b (valid_snake_last a ha) (valid_snake_last b hb) h
+  rw [snake_valid a ha, snake_valid b hb] at this
+  exact map_eq_map_of_imp lowSep lowA a b
+    (fun x hx y hy => lowSep_imp_lowA ((validName_facts ha).2 x hx) ((validName_facts hb).2 y hy)) this
+
+theorem escapeS_injective_usSimple (t : List (List Char × List Char))
+    (hinj : ∀ e1 ∈ t, ∀ e2 ∈ t, e1.2 = e2.2 → e1.1 = e2.1)
+    (hus : ∀ e ∈ t, e.2.getLast? = some '_')
+    (x y : List Char) (hx : usSimple x = true) (hy : usSimple y = true)
+    (h : escapeIdentS t x = escapeIdentS t y) : x = y := by
+  have := escapeS_snake_eq t hinj hus x y (usSimple_snake_last x hx) (usSimple_snake_last y hy) h
+  rwa [snake_usSimple x hx, snake_usSimple y hy] at this
+
+end Witverif.Text.Ident
